@@ -76,15 +76,23 @@ func c16VerifDir() string {
 
 func c16Setup() {
 	c16Once.Do(func() {
-		base := filepath.Join(c16VerifDir(), ".work")
-		if err := os.MkdirAll(base, 0o755); err != nil {
-			c16InitErr = err
-			return
-		}
-		w, err := os.MkdirTemp(base, "c16-tree-")
-		if err != nil {
-			c16InitErr = err
-			return
+		attach := os.Getenv(c16ChildEnv) // a child process uses the tree its parent created
+		w := attach
+		if attach == "" {
+			base, err := filepath.Abs(filepath.Join(c16VerifDir(), ".work"))
+			if err != nil {
+				c16InitErr = err
+				return
+			}
+			if err := os.MkdirAll(base, 0o755); err != nil {
+				c16InitErr = err
+				return
+			}
+			w, err = os.MkdirTemp(base, "c16-tree-")
+			if err != nil {
+				c16InitErr = err
+				return
+			}
 		}
 		c16Work = w
 		c16Root = filepath.Join(w, c16RootName)
@@ -95,9 +103,11 @@ func c16Setup() {
 		for _, p := range l {
 			if strings.HasSuffix(p, "/") {
 				rel := strings.TrimSuffix(p, "/")
-				if err := os.MkdirAll(filepath.Join(w, rel), 0o755); err != nil {
-					c16InitErr = err
-					return
+				if attach == "" {
+					if err := os.MkdirAll(filepath.Join(w, rel), 0o755); err != nil {
+						c16InitErr = err
+						return
+					}
 				}
 				c16Tree = append(c16Tree, c16Entry{rel: rel, dir: true})
 				c16MapFS[rel] = &fstest.MapFile{Mode: fs.ModeDir | 0o755}
@@ -108,9 +118,11 @@ func c16Setup() {
 				mark = "MARK-IN"
 			}
 			body := fmt.Sprintf("%s-%d:%s\n", mark, id, p)
-			if err := os.WriteFile(filepath.Join(w, p), []byte(body), 0o644); err != nil {
-				c16InitErr = err
-				return
+			if attach == "" {
+				if err := os.WriteFile(filepath.Join(w, p), []byte(body), 0o644); err != nil {
+					c16InitErr = err
+					return
+				}
 			}
 			c16Tree = append(c16Tree, c16Entry{rel: p, id: id, body: body})
 			c16MapFS[p] = &fstest.MapFile{Data: []byte(body), Mode: 0o644}
@@ -128,16 +140,14 @@ func c16Setup() {
 			}
 		}
 		c16TreeW = strings.Join(parts, " ")
-		// relative roots are resolved against the process working directory
-		if err := os.Chdir(w); err != nil {
-			c16InitErr = err
-		}
+		// The harness process never changes its working directory: configurations whose root is
+		// relative to the working directory run in child processes (c16_child.go).
 	})
 }
 
 func c16Cleanup() {
-	if c16Work != "" && strings.Contains(c16Work, "c16-tree-") {
-		os.Chdir("/")
+	c16StopChildren()
+	if c16Work != "" && strings.Contains(c16Work, "c16-tree-") && os.Getenv(c16ChildEnv) == "" {
 		os.RemoveAll(c16Work)
 	}
 }
@@ -340,7 +350,12 @@ const c16NumMounts = 6
 //	6 rec(http.FS(MapFS of W)), Root "public"
 //	7 rec(http.FS(fs.Sub(MapFS, "public"))), Root "."
 //	8 default: Root = "./public/" relative, unclean
-const c16NumMwFS = 9
+//	9 default: Root = "" (-> "."), working directory = the web root, secrets in its parent
+//	10 default: Root = "./", working directory = the web root
+//
+// 1 and 8 run in a child process whose working directory is W, 9 and 10 in one whose working
+// directory is W/public.
+const c16NumMwFS = 11
 
 func c16RunMw(c *c16Case) Result {
 	var names []string
@@ -353,6 +368,10 @@ func c16RunMw(c *c16Case) Result {
 		cfg.Root, rec = c16RootName, false
 	case 8:
 		cfg.Root, rec = "./"+c16RootName+"/", false
+	case 9:
+		cfg.Root, rec = "", false
+	case 10:
+		cfg.Root, rec = "./", false
 	case 2:
 		cfg.Filesystem = c16RecHTTP{http.Dir(c16Root), &names}
 	case 3:
@@ -442,7 +461,13 @@ func c16RunMw(c *c16Case) Result {
 //	2 e.StaticFS(prefix, rec(os.DirFS(root)))    3 e.StaticFS(prefix, rec(fs.Sub(MapFS, "public")))
 //	4 g=/g: g.Static(prefix, absolute root)      5 g=/g: g.StaticFS(prefix, rec(os.DirFS(root)))
 //	6 e.Filesystem = os.DirFS(W); e.Static(prefix, "public")     7 e.StaticFS(prefix, echo.MustSubFS(os.DirFS(W), "public"))
-const c16NumDirVariants = 8
+//	8..11 e.Static(prefix, root) on the DEFAULT filesystem with root ".", "", "./", "dir/.." — a root that cleans
+//	      to "." — and the working directory = the web root (secrets in its parent);  12 g=/g: g.Static(prefix, ".")
+//
+// 1 runs in a child process with working directory W, 8..12 in one with working directory W/public.
+const c16NumDirVariants = 13
+
+var c16DotRoots = map[int]string{8: ".", 9: "", 10: "./", 11: "dir/..", 12: "."}
 
 func c16RunDir(c *c16Case) Result {
 	var names []string
@@ -472,8 +497,13 @@ func c16RunDir(c *c16Case) Result {
 	case 6:
 		e.Filesystem = os.DirFS(c16Work)
 		e.Static(c.Prefix, c16RootName)
-	default:
+	case 7:
 		e.StaticFS(c.Prefix, echo.MustSubFS(os.DirFS(c16Work), c16RootName))
+	case 12:
+		e.Group("/g").Static(c.Prefix, c16DotRoots[c.Variant])
+		mount = "/g" + c.Prefix
+	default:
+		e.Static(c.Prefix, c16DotRoots[c.Variant])
 	}
 	e.GET("/api/ok", c16OK)
 	code, body, panicked, _ := c16Serve(e, c)
@@ -545,6 +575,9 @@ func c16Run(ci any) (res Result) {
 			res = Result{Obs: "harness-panic", Oracle: fmt.Sprintf("panic outside ServeHTTP: %v", p)}
 		}
 	}()
+	if cwd := c16CaseCwd(c); cwd != "" && os.Getenv(c16ChildEnv) == "" {
+		return c16ChildRun(cwd, c)
+	}
 	switch c.Kind {
 	case 0:
 		return c16RunMw(c)
@@ -695,7 +728,7 @@ func c16GenCase(r *rand.Rand, big bool) *c16Case {
 		c.Variant = r.Intn(c16NumDirVariants)
 		c.Prefix = c16Pick(r, []string{"/assets", "/assets", "/", "", "/a/b", "/static", "/assets/"})
 		mount := strings.TrimSuffix(c.Prefix, "/")
-		if c.Variant == 4 || c.Variant == 5 {
+		if c.Variant == 4 || c.Variant == 5 || c.Variant == 12 {
 			mount = "/g" + mount
 		}
 		c16SetTarget(r, c, c16GenTarget(r, mount, big))
@@ -750,13 +783,13 @@ func c16Gen(r *rand.Rand, tier string) []any {
 		}
 		rel := strings.TrimPrefix(p, c16RootName+"/")
 		for m := 0; m < c16NumMounts; m++ {
-			for _, f := range []int{0, 1, 2, 3, 5, 7} {
+			for _, f := range []int{0, 1, 2, 3, 5, 7, 9} {
 				out = append(out, &c16Case{Kind: 0, Mount: m, FS: f, Path: lat1(c16MwMountPrefix[m] + "/" + rel)})
 			}
 		}
 		for v := 0; v < c16NumDirVariants; v++ {
 			mount := "/assets"
-			if v == 4 || v == 5 {
+			if v == 4 || v == 5 || v == 12 {
 				mount = "/g/assets"
 			}
 			out = append(out, &c16Case{Kind: 1, Variant: v, Prefix: "/assets", Path: lat1(mount + "/" + rel)})
@@ -770,7 +803,7 @@ func c16Gen(r *rand.Rand, tier string) []any {
 	}
 	for k := 0; k < reps; k++ {
 		for _, o := range c16Outside {
-			for _, f := range []int{3, 5, 6, 0, 2} {
+			for _, f := range []int{3, 5, 6, 0, 2, 9} {
 				for _, m := range []int{0, 2, 5} {
 					c := &c16Case{Kind: 0, Mount: m, FS: f, Browse: k%2 == 1}
 					c16SetTarget(r, c, c16MwMountPrefix[m]+"/"+c16Encode(r, o))
@@ -779,7 +812,7 @@ func c16Gen(r *rand.Rand, tier string) []any {
 			}
 			for v := 0; v < c16NumDirVariants; v++ {
 				mount := "/assets"
-				if v == 4 || v == 5 {
+				if v == 4 || v == 5 || v == 12 {
 					mount = "/g/assets"
 				}
 				c := &c16Case{Kind: 1, Variant: v, Prefix: "/assets"}
